@@ -20,6 +20,7 @@ def c01(A, ctx, tier):
     misc.r_accreset(A, ctx, dict(floor=2))
     for k, v in EX01.items():
         ctx.note(f"out of scope {k}: {v}")
+    cox.r_istep_multitask(A, ctx, {})
     ctx.assume("a score <= tol implies eps-stationarity numerically (not decided)")
     ctx.assume("the formulas inside subdiff_distance / gradients are decided under C06/C08")
     return dict(explanation="well-formedness of the convergence certificate on every "
@@ -67,6 +68,7 @@ def c05(A, ctx, tier):
     warm.r_cache(A, ctx, {})
     misc.r_alias(A, ctx, dict(floor=10))
     pairing.r_pair_eq(A, ctx, dict(floor=30))
+    misc.r_wssize(A, ctx, dict(floor=4))
     ctx.assume("a consistent (w_init, Xw_init) pair is the caller's contract")
     return dict(explanation="warm starts and paths: optional-argument idiom, pairing of "
                 "every coefficient store with its model-fit delta, path discipline "
@@ -196,6 +198,7 @@ def c16(A, ctx, tier):
                   select=lambda f: f.name == "alpha_max" or f.name.startswith("_alpha_max"))
     critical.r_critical(A, ctx, dict(floor=4))
     blockpen.r_alphamax_positive(A, ctx, dict(floor=20))
+    misc.r_wssize(A, ctx, dict(floor=4))
     ctx.assume("that a fit slightly below alpha_max is non-zero is numerical and not decided")
     return dict(explanation="critical strength: alpha_max helpers exclude zero weights "
                 "before dividing; a solver that fits an intercept cannot exit at w = 0 "
@@ -214,6 +217,7 @@ def c06(A, ctx, tier):
                         select=lambda f: "construct_grad" in f.name)
     kernels.r_accessor_eq(A, ctx, dict(floor=40))
     blockpen.r_prox_datafit(A, ctx, dict(floor=15))
+    cox.r_istep_multitask(A, ctx, {})
     ctx.assume("Cox: the outer composition (gradient == gradient_sparse == X.T @ raw_grad) is decided "
                "for all shapes with the risk-set recursions as opaque operators; the recursions "
                "themselves are decided on six fixed tie / censoring patterns of 3-5 observations "
